@@ -776,7 +776,8 @@ def source_files():
     return fs
 
 
-def main():
+def generate(verbose=False):
+    """Regenerate Gen/Cir.lean from REPO's current sources; returns (function names, outside list)."""
     import concurrent.futures as cf
     files = source_files()
     with cf.ThreadPoolExecutor(max_workers=12) as ex:
@@ -792,11 +793,12 @@ def main():
     path = os.path.join(GEN_LEAN, "Cir.lean")
     if not os.path.exists(path) or open(path).read() != txt:
         open(path, "w").write(txt)
-    print("translated %d functions, %d outside the subset" % (len(names), len(opaque)))
-    for o in opaque:
-        print("  opaque:", o)
+    if verbose:
+        print("translated %d functions, %d outside the subset" % (len(names), len(opaque)))
+        for o in opaque:
+            print("  outside:", o)
     return names, opaque
 
 
 if __name__ == "__main__":
-    main()
+    generate(verbose=True)
